@@ -350,7 +350,17 @@ pub fn read_all(bytes: &[u8], cfg: &Cfg) -> Result<BTreeMap<String, FileRead>, S
 }
 
 fn read_all_inner(bytes: &[u8], cfg: &Cfg) -> Result<BTreeMap<String, FileRead>, String> {
-    read_all_from(Cursor::new(bytes), cfg)
+    read_all_from(used_cursor(bytes), cfg)
+}
+
+/// a source that was used before it is handed to the reader: positioned at its start, somewhere inside or
+/// at its end, chosen by the bytes (a case replays identically) — `ArchiveReader::from_config` takes a
+/// source at any position
+pub fn used_cursor(bytes: &[u8]) -> Cursor<&[u8]> {
+    let mut c = Cursor::new(bytes);
+    let h = fnv(&bytes[..bytes.len().min(96)]);
+    match h % 4 { 0 | 1 => {}, 2 => c.set_position(bytes.len() as u64), _ => c.set_position((h >> 8) % (bytes.len() as u64 + 1)) }
+    c
 }
 
 /// same over any `Read + Seek` source (C13: throttled sources)
